@@ -61,6 +61,27 @@ def _check_case(ctx, metrics, c, variant):
         ctx.violation("crps:argument-modified", "inputs changed by the call", case)
 
 
+def replication(ctx, metrics, c, k):
+    """the empirical definition is unchanged when the forecast set is repeated k times (exact metamorphic relation);
+    k is chosen so that the number of forecasts passes 2^15.5 (products n*n beyond 32 bits)"""
+    obs = np.tile(np.array(c["obs"], dtype=float), k)
+    ens = np.tile(np.array(c["ens"], dtype=float), (k, 1))
+    try:
+        dec, _ = metrics.crps(obs, ens)
+    except Exception as ex:
+        ctx.violation("crps:exception", repr(ex), {"obs": c["obs"], "ens": c["ens"], "replicated": k})
+        return
+    case = {"obs": c["obs"], "ens": c["ens"], "replicated": k, "n": len(obs)}
+    for key, exp in (("crps", c["crps"]), ("uncertainty", c["unc"])):
+        e = exp[0] / exp[1]
+        if not abs(float(dec[key]) - e) <= 1e-7 * max(1.0, abs(e)):
+            ctx.violation("crps:large-n:" + key, "%s=%r for the case repeated %d times, definition gives %s" % (key, float(dec[key]), k, exp), case)
+            return
+    if min(float(dec["reliability"]), float(dec["potential"]), float(dec["uncertainty"])) < -1e-9 or \
+            abs(float(dec["reliability"]) + float(dec["potential"]) - float(dec["crps"])) > 1e-7:
+        ctx.violation("crps:large-n:decomposition", "components %s" % dec.to_dict(), case)
+
+
 def spec_to_code(ctx, metrics, cfg):
     res = ctx.tlc("CrpsDump", cfg, timeout=3000, heap="6g")
     if res.violated:
@@ -68,6 +89,7 @@ def spec_to_code(ctx, metrics, cfg):
     cases = res.printed()
     if len(cases) < 100:
         raise Machinery("Crps generator %s: %d cases" % (cfg, len(cases)))
+    nrep = 0
     for n, c in enumerate(cases):
         h = hash(json.dumps(c["obs"]) + json.dumps(c["ens"]))
         base = {"shift": 0, "scale": 1.0, "revmem": False, "revfc": False, "nanrow": False}
@@ -77,10 +99,13 @@ def spec_to_code(ctx, metrics, cfg):
         _check_case(ctx, metrics, c, var)
         ties = any(len(set(e)) < len(e) for e in c["ens"]) or any(o in e for o, e in zip(c["obs"], c["ens"]))
         ctx.count({"o": c["obs"], "e": c["ens"]}, ties)
+        if cfg == "MC_Crps_quick.cfg" and len(c["obs"]) == 2 and len(set(c["obs"])) == 2 and nrep < 2 and n % 97 == 5:
+            replication(ctx, metrics, c, 23200 if nrep == 0 else 1500)
+            nrep += 1
         if n % 7001 == 0:
             ctx.sample({"spec->code": {"obs": c["obs"], "ens": c["ens"], "crps": c["crps"], "unc": c["unc"]}})
     ctx.traces += len(cases)
-    ctx.part("spec_to_code_" + cfg, behaviours=len(cases), states=res.distinct, exhaustive=True)
+    ctx.part("spec_to_code_" + cfg, behaviours=len(cases), states=res.distinct, exhaustive=True, replicated_large_n_cases=nrep)
 
 
 def code_to_spec(ctx, metrics, ncases):
